@@ -340,6 +340,32 @@ func (s *Session) replayObligation(prop string, o *Obligation) (bool, map[string
 	if o.Kind == "lemma" {
 		return s.replayLemma(prop, o)
 	}
+	// up to three different models of the failed obligation (each new search excludes the shapes
+	// already tried) until one is confirmed on the real code
+	var prev []map[string]string
+	var last map[string]interface{}
+	for attempt := 0; attempt < 3; attempt++ {
+		ok, det := s.replayOnce(prop, o, prev)
+		if det != nil {
+			det["models_tried"] = attempt + 1
+			last = det
+		}
+		if ok {
+			return true, det
+		}
+		if det == nil {
+			break
+		}
+		mv, _ := det["model_values"].(map[string]string)
+		if mv == nil || strings.HasPrefix(o.Fn, "Frequency.") {
+			break
+		}
+		prev = append(prev, mv)
+	}
+	return false, last
+}
+
+func (s *Session) replayOnce(prop string, o *Obligation, prev []map[string]string) (bool, map[string]interface{}) {
 	fi := s.prog.Funcs[o.Fn]
 	ct := s.cf.Funcs[o.Fn]
 	if fi == nil || ct == nil {
@@ -391,8 +417,9 @@ func (s *Session) replayObligation(prop string, o *Obligation) (bool, map[string
 	// bound the storage so that the state can be built; small bounds first — with every shape
 	// integer confined to a few values the nonlinear frame arithmetic is decided by branching
 	qfOnly := false
+	var block []*Term // shapes already tried
 	boundsFor := func(cells, objs int64) []*Term {
-		var assume []*Term
+		assume := append([]*Term{}, block...)
 		for _, a := range baseAssume {
 			if !qfOnly || !hasQuantifier(a) {
 				assume = append(assume, a)
@@ -428,6 +455,45 @@ func (s *Session) replayObligation(prop string, o *Obligation) (bool, map[string
 	var terms []*Term
 	for _, w := range wants {
 		terms = append(terms, w.t)
+	}
+	// keep channel counts and outer slices small enough for the harness
+	for _, w := range wants {
+		if strings.HasSuffix(w.key, ".ch") && w.t.Sort == SInt {
+			block = append(block, Le(w.t, IntLit(4)))
+		}
+	}
+	for _, pn := range paramOrder {
+		if v, ok := u.entry[pn]; ok && v.K == KSlice && v.Len != nil {
+			if _, isOuter := v.Elem.(*types.Slice); isOuter {
+				block = append(block, Le(v.Len, IntLit(4)))
+				// later attempts ask for uneven channels (the usual corner of the striped functions);
+				// this only steers the choice of candidate inputs
+				if len(prev) >= 1 {
+					l0 := u.innerSlice(u.old, v, IntLit(0)).Len
+					l1 := u.innerSlice(u.old, v, IntLit(1)).Len
+					block = append(block, Ge(v.Len, IntLit(2)))
+					if len(prev) == 1 {
+						block = append(block, Lt(l0, l1))
+					} else {
+						block = append(block, Gt(l0, l1))
+					}
+				}
+			}
+		}
+	}
+	for _, pm := range prev {
+		var same []*Term
+		for _, w := range wants {
+			if w.t.Sort != SInt {
+				continue
+			}
+			if n, ok := parseSMTInt(pm[w.key]); ok {
+				same = append(same, Eq(w.t, IntBig(n)))
+			}
+		}
+		if len(same) > 0 {
+			block = append(block, Not(And(same...)))
+		}
 	}
 	var vals map[string]string
 	status := "unknown"
@@ -585,7 +651,7 @@ func (s *Session) genReplayTest(u *Unit, o *Obligation, mv map[string]string) (s
 	fi := u.fn
 	var sb strings.Builder
 	testName := "TestVerifReplay"
-	sb.WriteString("package signal\n\nimport (\n\t\"encoding/json\"\n\t\"fmt\"\n\t\"math\"\n\t\"reflect\"\n\t\"testing\"\n\t\"unsafe\"\n)\n\nvar _ = math.Pi\nvar _ = reflect.DeepEqual\nvar _ = unsafe.Pointer(nil)\nvar _ = json.Marshal\n\n")
+	sb.WriteString("package signal\n\nimport (\n\t\"encoding/json\"\n\t\"fmt\"\n\t\"math\"\n\t\"reflect\"\n\t\"runtime\"\n\t\"testing\"\n\t\"unsafe\"\n)\n\nvar _ = runtime.GC\nvar _ = math.Pi\nvar _ = reflect.DeepEqual\nvar _ = unsafe.Pointer(nil)\nvar _ = json.Marshal\n\n")
 	sb.WriteString(replayHelpers)
 	// named element types
 	seenNamed := map[string]bool{}
@@ -664,6 +730,18 @@ func (s *Session) genReplayTest(u *Unit, o *Obligation, mv map[string]string) (s
 					p, ok2 := mvInt(mv, fmt.Sprintf("%s[%d].ptr", pn, c))
 					l, ok3 := mvInt(mv, fmt.Sprintf("%s[%d].len", pn, c))
 					cp, ok4 := mvInt(mv, fmt.Sprintf("%s[%d].cap", pn, c))
+					// a header the obligation does not constrain (its constants are not even declared
+					// in the query) may be anything allowed by the precondition: a slice of its own,
+					// placed beyond every region the model talks about (those lie below 48)
+					if ok3 && !ok4 {
+						cp, ok4 = l, true
+					}
+					if ok3 && ok4 && !ok2 {
+						p, ok2 = 64+64*c, true
+					}
+					if !ok3 && !ok2 && !ok4 {
+						p, l, cp, ok2, ok3, ok4 = 64+64*c, 0, 0, true, true, true
+					}
 					if !(ok2 && ok3 && ok4) || p < 0 || l < 0 || cp < l || p+cp > 4096 {
 						return "", "", fmt.Errorf("inner slice of %s not constructible", pn)
 					}
@@ -770,13 +848,15 @@ func (s *Session) genReplayTest(u *Unit, o *Obligation, mv map[string]string) (s
 		memNames = append(memNames, k)
 	}
 	sort.Strings(memNames)
+	var memDecl strings.Builder
 	for _, k := range memNames {
 		n := mems[k]
 		if n < 1 {
 			n = 1
 		}
-		fmt.Fprintf(&sb, "\tmem_%s := make([]%s, %d)\n\tfor i := range mem_%s {\n\t\tmem_%s[i] = %s(i%%100 + 1)\n\t}\n", k, k, n, k, k, k)
+		fmt.Fprintf(&memDecl, "\tmem_%s := make([]%s, %d)\n\tfor i := range mem_%s {\n\t\tmem_%s[i] = %s(i%%100 + 1)\n\t}\n", k, k, n, k, k, k)
 	}
+	sb.WriteString(memDecl.String())
 	sb.WriteString(pre.String())
 	// snapshot
 	for _, k := range memNames {
@@ -834,7 +914,38 @@ func (s *Session) genReplayTest(u *Unit, o *Obligation, mv map[string]string) (s
 	sb.WriteString("\tfmt.Printf(\"REPLAY-MODIFIED %v\\n\", modified)\n")
 	// verdict by obligation kind
 	lbl := labelOf(o.Name)
+	allocBound := -1
 	switch {
+	case o.Kind == "alloc-free" || strings.Contains(lbl, "no-alloc"):
+		allocBound = 0
+	case strings.HasPrefix(lbl, "post:allocs"):
+		allocBound = 1
+	case hasProp(o.Props, "C18") && !u.ct.Modifies["allocs"]:
+		allocBound = 0 // any C18 obligation of a function that must not allocate at all
+	}
+	if allocBound >= 0 {
+		// allocation oracle: the state is rebuilt and the call repeated; the smallest number of
+		// mallocs observed during the call (minus the smallest observed for an empty call of the
+		// same shape) is a lower bound on what the call itself allocates
+		sb.WriteString("\tminAllocs, minBase := uint64(1<<62), uint64(1<<62)\n\tfor rep := 0; rep < 9; rep++ {\n")
+		for _, l := range strings.Split(strings.TrimRight(memDecl.String()+pre.String(), "\n"), "\n") {
+			sb.WriteString("\t" + l + "\n")
+		}
+		for _, k := range memNames {
+			fmt.Fprintf(&sb, "\t\t_ = mem_%s\n", k)
+		}
+		sb.WriteString("\t\tvar m0, m1, m2 runtime.MemStats\n\t\truntime.ReadMemStats(&m0)\n\t\tfunc() {\n\t\t\tdefer func() { recover() }()\n\t\t}()\n\t\truntime.ReadMemStats(&m1)\n")
+		if fi.Sig.Results().Len() > 0 {
+			sb.WriteString("\t\tfunc() {\n\t\t\tdefer func() { recover() }()\n\t\t\t_ = " + call + "\n\t\t}()\n")
+		} else {
+			sb.WriteString("\t\tfunc() {\n\t\t\tdefer func() { recover() }()\n\t\t\t" + call + "\n\t\t}()\n")
+		}
+		sb.WriteString("\t\truntime.ReadMemStats(&m2)\n\t\tif d := m1.Mallocs - m0.Mallocs; d < minBase {\n\t\t\tminBase = d\n\t\t}\n\t\tif d := m2.Mallocs - m1.Mallocs; d < minAllocs {\n\t\t\tminAllocs = d\n\t\t}\n\t}\n")
+		fmt.Fprintf(&sb, "\tfmt.Printf(\"REPLAY-ALLOCS %%d baseline %%d allowed %d\\n\", minAllocs, minBase)\n", allocBound)
+		fmt.Fprintf(&sb, "\tif minAllocs > minBase+%d {\n\t\tfmt.Println(\"REPLAY-CONFIRMED: the call allocates on the heap on an input for which the contract allows at most %d allocation(s)\")\n\t}\n", allocBound, allocBound)
+	}
+	switch {
+	case allocBound >= 0:
 	case o.Kind == "no-panic" || o.Kind == "pre@call":
 		sb.WriteString("\tif panicked {\n\t\tfmt.Println(\"REPLAY-CONFIRMED: the contract demands no panic for this input, the real code panicked:\", msg)\n\t}\n")
 	case o.Kind == "panics-iff" && strings.Contains(lbl, "must-panic"):
